@@ -44,6 +44,17 @@ def _all_cases(C, tier, seed):
     lib, _ = C.build_lib()
     if lib is None:
         return out
+    # declared-but-never-defined functions (clang AST of every header vs. the symbols the library defines): a program
+    # calling a documented function that is declared without a body anywhere and defined by no object does not link
+    try:
+        import extract_decls
+        res = extract_decls.undefined_decls(lib)
+        for m in res['missing']:
+            name = m.split(' [')[0].replace(' ', '')
+            out.append(('decl:' + name, 'C10 inst decl:%s | 1' % name))
+        out.append(('decls', 'C10 range declared-functions-scanned:%d | 1' % res['declared']))
+    except Exception as e:   # clang missing / AST not parseable: the tie is broken, say so
+        out.append(('decls', 'C10 inst decl-scan-failed:%s | 1' % type(e).__name__))
     limit = 150 if tier == 'thorough' else 25
     here = os.path.dirname(os.path.abspath(__file__))
     for f in sorted(glob.glob(os.path.join(here, 'c[0-9][0-9].py'))):
